@@ -63,3 +63,55 @@ Proof.
   apply i_sym.
   apply (sem_teq _ _ (i_refl n I) (i_sym n I) (i_trans n I) _ (i_act_eq n I) (i_comm n I)). exact T.
 Qed.
+
+(* ------------------------------------------------------------------ measured registers report the same logical outcomes *)
+(* [obs qs x] : anything read off the qubits qs of a state (e.g. the outcome distribution of a
+   register); it only has to respect state equality and to be equivariant under qubit
+   permutations.  Then reading the re-attached register (qubits mapped through the final layout)
+   off the routed circuit gives what reading the original register off the input circuit gives. *)
+Section Registers.
+  Variable n : nat.
+  Variable I : interp n.
+  Variable O : Type.
+  Variable obs : list nat -> iS n I -> O.
+  Hypothesis obs_eq : forall qs x y, ieq n I x y -> obs qs x = obs qs y.
+  Hypothesis obs_equivariant : forall f qs x, perm_on n f -> (forall q, In q qs -> q < n) ->
+    obs (map f qs) (ipact n I f x) = obs qs x.
+
+  Lemma obs_through_layout l p qs x y :
+    wf_maps n l p -> (forall q, In q qs -> q < n) ->
+    ieq n I y (ipact n I (at_ l) x) -> obs (map (at_ l) qs) y = obs qs x.
+  Proof.
+    intros W Hq E. rewrite (obs_eq _ _ _ E). apply obs_equivariant; auto.
+    eapply perm_on_maps; eauto.
+  Qed.
+
+  Theorem registers_report_same_outcomes G gs body finals items ops s m :
+    detach_final gs = (body, finals) ->
+    gates_ok0 (split_meas body) ->
+    (forall g q, In g (split_meas body) -> In q (gqs g) -> q < n) ->
+    (forall g q, In g finals -> In q (gqs g) -> q < n) ->
+    block_decomposition n body = Some items ->
+    run n (full_guard G) (init n items) ops = Some s -> rem s = [] ->
+    In m finals ->
+    forall x,
+      (* the register of the routed circuit: same tag, qubits through the final layout ... *)
+      In (relabel (l2p s) m) (append_final (l2p s) finals) /\
+      gqs (relabel (l2p s) m) = map (at_ (l2p s)) (gqs m) /\
+      (* ... read off the routed state = the original register read off the original state *)
+      obs (gqs (relabel (l2p s) m)) (irun I (eflat (out s)) x) = obs (gqs m) (irun I (split_meas body) x).
+  Proof.
+    intros D G0 Wb Wf B R E Hm x.
+    destruct (router_call_ok n I G gs body finals items ops s D G0 Wb Wf B R E) as (_ & _ & W & _).
+    pose proof (blocks_wf_items n body items G0 Wb B) as WI.
+    destruct (blocks_equiv_all n body items G0 B) as (T & _ & _).
+    split; [apply in_map; exact Hm|]. split; [reflexivity|].
+    cbn [relabel gqs]. apply (obs_through_layout (l2p s) (p2l s)); auto.
+    - intros q Hq. eapply Wf; eauto.
+    - pose proof (routing_sem_interp n I G items [] ops s WI (fun g q F => match F with end) R E x) as S.
+      unfold append_final in S. cbn [map] in S. rewrite !app_nil_r in S. unfold final_layout in S.
+      eapply i_trans; [exact S|]. apply i_pact_eq. apply i_sym.
+      unfold irun.
+      apply (sem_teq _ _ (i_refl n I) (i_sym n I) (i_trans n I) _ (i_act_eq n I) (i_comm n I)). exact T.
+  Qed.
+End Registers.
